@@ -1,8 +1,8 @@
 (* C18/LemmasRange.v -- detection of the columns of a ranged attribute
    (range_detect) and the text get_attr_origin gives for the whole range
-   (guarded theorem + refutation beyond column Z). *)
+   ("<leftmost source cell>:<rightmost source cell>", all columns). *)
 From Coq Require Import ZArith List Bool Lia.
-From AK Require Import Common.Sx Common.Err C18.Base gen.C18_Consts C18.Model C18.Lemmas.
+From AK Require Import Common.Sx Common.Err C18.Base gen.C18_Consts C18.Model C18.Lemmas C18.LemmasCoord.
 Import ListNotations.
 
 (* ------------------------------------------------------------------ *)
@@ -72,7 +72,7 @@ Proof.
 Qed.
 
 (* ------------------------------------------------------------------ *)
-(* the range text                                                      *)
+(* dictionaries with distinct keys                                     *)
 
 Lemma assoc_set_fresh {A} k (v : A) : forall d,
   ~ In k (map fst d) -> assoc_set k v d = d ++ [(k, v)].
@@ -97,58 +97,127 @@ Proof.
   intros H. apply (G l []). exact H.
 Qed.
 
-(* adjacent elements in order: insertion sort leaves the list alone *)
-Fixpoint adj_sorted {A} (leb : A -> A -> bool) (l : list A) : Prop :=
-  match l with
-  | x :: ((y :: _) as r) => leb x y = true /\ adj_sorted leb r
-  | _ => True
-  end.
+(* ------------------------------------------------------------------ *)
+(* insertion sort: permutation, sortedness                             *)
 
-Lemma sort_by_sorted {A} (leb : A -> A -> bool) : forall l, adj_sorted leb l -> sort_by leb l = l.
+Lemma insert_by_map {A B} (f : A -> B) (leA : A -> A -> bool) (leB : B -> B -> bool) :
+  (forall x y, leB (f x) (f y) = leA x y) ->
+  forall x l, insert_by leB (f x) (map f l) = map f (insert_by leA x l).
 Proof.
-  induction l as [|x l IH]; intros H; [reflexivity|].
-  unfold sort_by in *. cbn [fold_right]. destruct l as [|y r].
-  - reflexivity.
-  - destruct H as [H1 H2]. rewrite (IH H2). cbn [insert_by]. rewrite H1. reflexivity.
+  intros H x. induction l as [|y l IH]; cbn [map insert_by]; [reflexivity|].
+  rewrite H. destruct (leA x y); [reflexivity|]. cbn [map]. rewrite IH. reflexivity.
 Qed.
 
-Lemma col_name_small c : (c < 26)%nat -> col_name c = [(65 + Z.of_nat c)%Z].
+Lemma sort_by_map {A B} (f : A -> B) (leA : A -> A -> bool) (leB : B -> B -> bool) :
+  (forall x y, leB (f x) (f y) = leA x y) ->
+  forall l, sort_by leB (map f l) = map f (sort_by leA l).
 Proof.
-  intros H. unfold col_name. cbn [col_name_aux].
-  assert (E : (Z.of_nat c <? 26)%Z = true) by (apply Z.ltb_lt; lia). rewrite E.
-  rewrite Z.mod_small by lia. reflexivity.
+  intros H. unfold sort_by. induction l as [|x l IH]; cbn [map fold_right]; [reflexivity|].
+  rewrite IH. apply insert_by_map. exact H.
 Qed.
 
-Lemma coord_leb_small r c r' c' :
-  (c < c')%nat -> (c' < 26)%nat -> str_leb (coord_text r c) (coord_text r' c') = true.
+Section Sort.
+  Context {A : Type} (leb : A -> A -> bool).
+  Hypothesis leb_total : forall x y, leb x y = false -> leb y x = true.
+  Hypothesis leb_trans : forall x y z, leb x y = true -> leb y z = true -> leb x z = true.
+
+  (* every element is below all later ones *)
+  Fixpoint ssorted (l : list A) : Prop :=
+    match l with
+    | [] => True
+    | x :: r => Forall (fun y => leb x y = true) r /\ ssorted r
+    end.
+
+  Lemma insert_by_in x y : forall l, In y (insert_by leb x l) <-> y = x \/ In y l.
+  Proof.
+    induction l as [|z l IH]; cbn [insert_by].
+    - cbn. intuition.
+    - destruct (leb x z); cbn [In]; [intuition|]. rewrite IH. intuition.
+  Qed.
+
+  Lemma sort_by_in y : forall l, In y (sort_by leb l) <-> In y l.
+  Proof.
+    unfold sort_by. induction l as [|x l IH]; cbn [fold_right]; [reflexivity|].
+    rewrite insert_by_in, IH. cbn [In]. intuition.
+  Qed.
+
+  Lemma insert_by_ssorted x : forall l, ssorted l -> ssorted (insert_by leb x l).
+  Proof.
+    induction l as [|z l IH]; intros H; cbn [insert_by].
+    - cbn. auto.
+    - destruct H as [H1 H2]. destruct (leb x z) eqn:E.
+      + cbn [ssorted]. split; [|split; assumption]. constructor; [exact E|].
+        eapply Forall_impl; [|exact H1]. intros w Hw. eapply leb_trans; eauto.
+      + cbn [ssorted]. split; [|apply IH; exact H2].
+        apply Forall_forall. intros w Hw. apply insert_by_in in Hw as [->|Hw].
+        * apply leb_total. exact E.
+        * rewrite Forall_forall in H1. apply H1. exact Hw.
+  Qed.
+
+  Lemma sort_by_ssorted : forall l, ssorted (sort_by leb l).
+  Proof.
+    unfold sort_by. induction l as [|x l IH]; cbn [fold_right]; [exact I|].
+    apply insert_by_ssorted. exact IH.
+  Qed.
+
+  Lemma ssorted_last : forall l d x, ssorted l -> In x l -> x = last l d \/ leb x (last l d) = true.
+  Proof.
+    induction l as [|y l IH]; intros d x H Hin; [destruct Hin|].
+    destruct H as [H1 H2]. destruct l as [|z l].
+    - destruct Hin as [<-|[]]. left. reflexivity.
+    - change (last (y :: z :: l) d) with (last (z :: l) d). destruct Hin as [<-|Hin].
+      + right. rewrite Forall_forall in H1. apply H1.
+        clear. generalize z. induction l as [|w l IH]; intros z'; [left; reflexivity|].
+        change (last (z' :: w :: l) d) with (last (w :: l) d). right. apply IH.
+      + apply IH; assumption.
+  Qed.
+End Sort.
+
+Lemma insert_by_length {A} (leb : A -> A -> bool) x : forall l, length (insert_by leb x l) = S (length l).
 Proof.
-  intros H1 H2. unfold str_leb, coord_text. rewrite !col_name_small by lia. cbn [app str_ltb].
-  assert (E1 : (65 + Z.of_nat c' <? 65 + Z.of_nat c)%Z = false) by (apply Z.ltb_ge; lia).
-  assert (E2 : (65 + Z.of_nat c <? 65 + Z.of_nat c')%Z = true) by (apply Z.ltb_lt; lia).
-  rewrite E1, E2. reflexivity.
+  induction l as [|y l IH]; cbn [insert_by]; [reflexivity|]. destruct (leb x y); cbn [length]; [reflexivity|].
+  rewrite IH. reflexivity.
 Qed.
 
-(* strictly increasing one-letter columns *)
-Fixpoint cols_small_inc (ps : list (nat * nat)) : Prop :=
-  match ps with
-  | p :: ((q :: _) as r) => (snd p < snd q)%nat /\ (snd q < 26)%nat /\ cols_small_inc r
-  | _ => True
-  end.
-
-Lemma coords_sorted : forall ps,
-  cols_small_inc ps -> adj_sorted str_leb (map (fun p => coord_text (fst p) (snd p)) ps).
+Lemma sort_by_length {A} (leb : A -> A -> bool) : forall l, length (sort_by leb l) = length l.
 Proof.
-  induction ps as [|p ps IH]; intros H; [exact I|].
-  destruct ps as [|q r]; [exact I|]. destruct H as [H1 [H2 H3]].
-  cbn [map adj_sorted]. split; [apply coord_leb_small; assumption|]. apply IH. exact H3.
+  unfold sort_by. induction l as [|x l IH]; cbn [fold_right]; [reflexivity|].
+  rewrite insert_by_length, IH. reflexivity.
 Qed.
+
+(* ------------------------------------------------------------------ *)
+(* the order of source cells: by column, then by row                   *)
+
+Definition pos_le (p q : nat * nat) : Prop :=
+  (snd p < snd q)%nat \/ (snd p = snd q /\ (fst p <= fst q)%nat).
+
+Lemma pos_leb_le p q : pos_leb p q = true <-> pos_le p q.
+Proof.
+  unfold pos_leb, pos_le.
+  destruct (Nat.ltb_spec (snd p) (snd q)), (Nat.eqb_spec (snd p) (snd q)), (Nat.leb_spec (fst p) (fst q));
+    cbn; split; intros G; try reflexivity; try discriminate; lia.
+Qed.
+
+Lemma pos_leb_total p q : pos_leb p q = false -> pos_leb q p = true.
+Proof.
+  intros G. apply pos_leb_le. unfold pos_leb in G. unfold pos_le.
+  destruct (Nat.ltb_spec (snd p) (snd q)), (Nat.eqb_spec (snd p) (snd q)), (Nat.leb_spec (fst p) (fst q));
+    cbn in G; try discriminate; lia.
+Qed.
+
+Lemma pos_leb_trans p q r : pos_leb p q = true -> pos_leb q r = true -> pos_leb p r = true.
+Proof. rewrite !pos_leb_le. unfold pos_le. lia. Qed.
+
+(* ------------------------------------------------------------------ *)
+(* the range text                                                      *)
+
+Definition pos_text (p : nat * nat) : str := coord_text (fst p) (snd p).
 
 Definition range_text_spec (ps : list (nat * nat)) : str :=
   match ps with
   | [] => marker_range_empty
-  | [p] => coord_text (fst p) (snd p)
-  | p :: _ => coord_text (fst p) (snd p) ++ [58%Z] ++
-              coord_text (fst (last ps p)) (snd (last ps p))
+  | [p] => pos_text p
+  | p :: _ => pos_text p ++ [58%Z] ++ pos_text (last ps p)
   end.
 
 Lemma last_indep {A} : forall (l : list A) x d d', last (x :: l) d = last (x :: l) d'.
@@ -166,28 +235,93 @@ Proof.
   change (last (x :: y :: l) d) with (last (y :: l) d). apply IH.
 Qed.
 
-(* get_attr_origin(attr) of a ranged attribute whose source cells stand in strictly increasing
-   one-letter columns (A..Z): "<leftmost cell>:<rightmost cell>" *)
-Lemma range_text_small (d : list (str * (nat * nat))) :
-  cols_small_inc (map snd d) -> range_text d = range_text_spec (map snd d).
+Lemma last_in {A} : forall (l : list A) x d, In (last (x :: l) d) (x :: l).
 Proof.
-  intros H. unfold range_text.
+  induction l as [|y l IH]; intros x d; [left; reflexivity|].
+  change (last (x :: y :: l) d) with (last (y :: l) d). right. apply IH.
+Qed.
+
+(* get_attr_origin(attr) of a ranged attribute = the text of the source cells sorted by
+   (column, row): first ":" last *)
+Lemma range_text_sorted (d : list (str * (nat * nat))) :
+  range_text d = range_text_spec (sort_by pos_leb (map snd d)).
+Proof.
+  unfold range_text.
   assert (E : map (fun kv : str * (nat * nat) => coord_text (fst (snd kv)) (snd (snd kv))) d =
-              map (fun p => coord_text (fst p) (snd p)) (map snd d)) by (rewrite map_map; reflexivity).
-  rewrite E. unfold sort_strs. rewrite (sort_by_sorted str_leb _ (coords_sorted _ H)).
-  destruct (map snd d) as [|p [|q r]]; try reflexivity.
+              map pos_text (map snd d)) by (rewrite map_map; reflexivity).
+  rewrite E.
+  rewrite (sort_by_map pos_text pos_leb coord_leb)
+    by (intros [r c] [r' c']; apply coord_leb_pos).
+  destruct (sort_by pos_leb (map snd d)) as [|p [|q r]]; try reflexivity.
   unfold range_text_spec. cbn [map]. f_equal. f_equal.
-  set (f := fun p0 : nat * nat => coord_text (fst p0) (snd p0)).
-  change (last (map f (p :: q :: r)) [] = f (last (p :: q :: r) p)).
-  cbn [map]. rewrite (last_indep (f q :: map f r) (f p) [] (f p)).
-  change (f p :: f q :: map f r) with (map f (p :: q :: r)).
+  change (last (map pos_text (p :: q :: r)) [] = pos_text (last (p :: q :: r) p)).
+  cbn [map]. rewrite (last_indep (pos_text q :: map pos_text r) (pos_text p) [] (pos_text p)).
+  change (pos_text p :: pos_text q :: map pos_text r) with (map pos_text (p :: q :: r)).
   apply last_map.
 Qed.
 
-(* object level: distinct titles, cells in increasing one-letter columns *)
-Lemma range_text_guarded_l names cells :
+(* ... for ANY recorded origins (any columns, cells of different rows as in a ladder reading,
+   any insertion order): the text names a leftmost and a rightmost source cell *)
+Lemma range_text_extremes_l (d : list (str * (nat * nat))) :
+  match map snd d with
+  | [] => range_text d = marker_range_empty
+  | [p] => range_text d = pos_text p
+  | _ => exists p q, In p (map snd d) /\ In q (map snd d) /\
+                     (forall x, In x (map snd d) -> pos_le p x /\ pos_le x q) /\
+                     range_text d = pos_text p ++ [58%Z] ++ pos_text q
+  end.
+Proof.
+  rewrite range_text_sorted.
+  pose proof (sort_by_ssorted pos_leb pos_leb_total pos_leb_trans (map snd d)) as Hs.
+  pose proof (sort_by_in pos_leb) as Hin.
+  pose proof (sort_by_length pos_leb (map snd d)) as Hlen.
+  destruct (map snd d) as [|p1 [|p2 rest]] eqn:Eps; try reflexivity.
+  destruct (sort_by pos_leb (p1 :: p2 :: rest)) as [|a [|b r]] eqn:Es; try discriminate.
+  unfold range_text_spec.
+  exists a, (last (a :: b :: r) a). repeat split.
+  - apply Hin. rewrite Es. left. reflexivity.
+  - apply Hin. rewrite Es. apply last_in.
+  - apply (proj2 (Hin x _)) in H. rewrite Es in H. destruct H as [<-|H].
+    + right. split; reflexivity.
+    + destruct Hs as [Hs _]. rewrite Forall_forall in Hs. apply pos_leb_le. apply Hs. exact H.
+  - apply (proj2 (Hin x _)) in H. rewrite Es in H.
+    destruct (ssorted_last pos_leb (a :: b :: r) a x Hs H) as [->|Hl].
+    + right. split; reflexivity.
+    + apply pos_leb_le. exact Hl.
+Qed.
+
+(* adjacent elements in order: insertion sort leaves the list alone *)
+Fixpoint adj_sorted {A} (leb : A -> A -> bool) (l : list A) : Prop :=
+  match l with
+  | x :: ((y :: _) as r) => leb x y = true /\ adj_sorted leb r
+  | _ => True
+  end.
+
+Lemma sort_by_sorted {A} (leb : A -> A -> bool) : forall l, adj_sorted leb l -> sort_by leb l = l.
+Proof.
+  induction l as [|x l IH]; intros H; [reflexivity|].
+  unfold sort_by in *. cbn [fold_right]. destruct l as [|y r].
+  - reflexivity.
+  - destruct H as [H1 H2]. rewrite (IH H2). cbn [insert_by]. rewrite H1. reflexivity.
+Qed.
+
+Lemma cols_inc_sorted : forall cells : list cell,
+  (forall i j x y, (i < j)%nat -> nth_error cells i = Some x -> nth_error cells j = Some y ->
+                   (c_col x < c_col y)%nat) ->
+  adj_sorted pos_leb (map cpos cells).
+Proof.
+  induction cells as [|x cells IH]; intros H; [exact I|].
+  destruct cells as [|y r]; [exact I|]. cbn [map adj_sorted]. split.
+  - apply pos_leb_le. left. cbn. apply (H 0%nat 1%nat x y); auto.
+  - apply IH. intros i j a b Hij Ha Hb. apply (H (S i) (S j) a b); auto. lia.
+Qed.
+
+(* object level: distinct titles, cells in strictly increasing columns (what range detection
+   yields, LemmasRange.range_cols_nodup), rows arbitrary:  "<first cell>:<last cell>" *)
+Lemma range_text_l names cells :
   NoDup names -> length names = length cells ->
-  cols_small_inc (map cpos cells) ->
+  (forall i j x y, (i < j)%nat -> nth_error cells i = Some x -> nth_error cells j = Some y ->
+                   (c_col x < c_col y)%nat) ->
   range_text (dict_of (combine names (map cpos cells))) = range_text_spec (map cpos cells).
 Proof.
   intros Hnd Hl Hc.
@@ -198,10 +332,11 @@ Proof.
   { clear - Hl. revert cells Hl. induction names as [|n names IH]; intros [|x cells] Hl; cbn in *;
       try reflexivity; try discriminate. rewrite IH; [reflexivity|lia]. }
   rewrite dict_of_nodup by (rewrite Hfst; exact Hnd).
-  rewrite range_text_small; rewrite Hsnd; [reflexivity|exact Hc].
+  rewrite range_text_sorted, Hsnd.
+  rewrite (sort_by_sorted pos_leb _ (cols_inc_sorted _ Hc)). reflexivity.
 Qed.
 
-(* beyond column Z the faithful model gives a text that does not start at the leftmost cell *)
+(* the former witness of the string-sort defect: source cells Y2 Z2 AA2 AB2 *)
 Definition wide_sheet : list (list cval) :=
   [ CStr [105] :: repeat CNone 23 ++ [CStr [121]; CStr [122]; CStr [97;97]; CStr [97;98]];
     CInt 1 :: repeat CNone 23 ++ [CInt 10; CInt 20; CInt 30; CInt 40] ].
@@ -212,18 +347,38 @@ Definition wide_cf : config :=
 Definition wide_origins : list (str * (nat * nat)) :=
   [ ([121%Z], (1%nat, 24%nat)); ([122%Z], (1%nat, 25%nat));
     ([97%Z; 97%Z], (1%nat, 26%nat)); ([97%Z; 98%Z], (1%nat, 27%nat)) ].
-Definition wide_text : str := [65%Z; 65%Z; 50%Z; 58%Z; 90%Z; 50%Z].     (* "AA2:Z2" *)
+Definition wide_text : str := [89%Z; 50%Z; 58%Z; 65%Z; 66%Z; 50%Z].     (* "Y2:AB2" *)
 
-Lemma range_text_refuted_l :
-  exists cf sh o,
-    read_table cf sh = ([Some o], None) /\
-    (* the source cells are Y2 Z2 AA2 AB2 ... *)
+Lemma range_text_wide_l :
+  exists o,
+    read_table wide_cf wide_sheet = ([Some o], None) /\
     (exists v, nth_error (o_attrs o) 1 = Some (v, ORange wide_origins)) /\
-    (* ... and the reported range is "AA2:Z2" *)
     get_attr_origin o (Some 1%nat) None true = Ok wide_text.
 Proof.
-  exists wide_cf, wide_sheet.
   destruct (read_table wide_cf wide_sheet) as [items e] eqn:E.
   vm_compute in E. injection E as <- <-.
   eexists. split; [reflexivity|]. split; [eexists; reflexivity|]. vm_compute. reflexivity.
+Qed.
+
+(* a ladder reading where the source cells of one ranged attribute come from different rows:
+   titles Y p q, rows (2019, 5, 6) and (blank, blank, 7): the second object's range reads
+   B2 (taken from the row above) and C3 *)
+Definition lad_sheet : list (list cval) :=
+  [ [CStr [89]; CStr [112]; CStr [113]];
+    [CInt 2019; CInt 5; CInt 6];
+    [CNone; CNone; CInt 7] ].
+Definition lad_cf : config :=
+  mkConfig [RPlain [89] (mkConv KInt None None None) None;
+            RRange true (mkConv KInt None None None) false] 1 [] true.
+
+Lemma range_text_ladder_l :
+  exists o1 o2,
+    read_table lad_cf lad_sheet = ([Some o1; Some o2], None) /\
+    (exists v, nth_error (o_attrs o2) 1 =
+               Some (v, ORange [([112%Z], (1%nat, 1%nat)); ([113%Z], (2%nat, 2%nat))])) /\
+    get_attr_origin o2 (Some 1%nat) None true = Ok [66%Z; 50%Z; 58%Z; 67%Z; 51%Z].     (* "B2:C3" *)
+Proof.
+  destruct (read_table lad_cf lad_sheet) as [items e] eqn:E.
+  vm_compute in E. injection E as <- <-.
+  eexists. eexists. split; [reflexivity|]. split; [eexists; reflexivity|]. vm_compute. reflexivity.
 Qed.
